@@ -40,10 +40,11 @@ class SV:
 class BStr:
     """String of concrete length whose characters are code points (int or z3 Int)."""
 
-    __slots__ = ("chars",)
+    __slots__ = ("chars", "origin")
 
-    def __init__(self, chars):
+    def __init__(self, chars, origin=None):
         self.chars = list(chars)
+        self.origin = origin  # z3 String term this bounded string was coerced from (contract boundary)
 
     def __len__(self):
         return len(self.chars)
@@ -423,6 +424,8 @@ def zstr(v):
     if isinstance(v, SV) and v.kind == "str":
         return v.t
     if isinstance(v, BStr):
+        if v.origin is not None:
+            return v.origin
         if not v.chars:
             return z3.StringVal("")
         parts = [
@@ -632,6 +635,17 @@ def eq_term(ctx: Ctx, a, b):
         for i, x in enumerate(c):
             parts.append(z3.Select(s.arr, i) == s.ety.unwrap(ctx, x))
         return z3.And(*parts)
+    if isinstance(a, SMap) and isinstance(b, SMap):
+        k = z3.Const(ctx.fresh_name("mk"), a.kty.sort())
+        return z3.And(
+            z3.ForAll([k], z3.Select(a.has, k) == z3.Select(b.has, k)),
+            z3.ForAll([k], z3.Implies(z3.Select(a.has, k), z3.Select(a.val, k) == z3.Select(b.val, k))),
+        )
+    if isinstance(a, SMap) or isinstance(b, SMap):
+        m, d = (a, b) if isinstance(a, SMap) else (b, a)
+        if not isinstance(d, dict):
+            return False
+        return eq_term(ctx, m, dict_to_smap(ctx, d, m.kty, m.vty))
     if isinstance(a, Rec) or isinstance(b, Rec):
         if isinstance(a, Rec) and isinstance(b, Rec):
             if a is b:
@@ -860,6 +874,37 @@ def _default(ety):
     if s == z3.StringSort():
         return z3.StringVal("")
     return z3.Const("dflt_" + str(s), s)
+
+
+def dict_to_smap(ctx, d: dict, kty, vty):
+    has = z3.K(kty.sort(), z3.BoolVal(False))
+    val = z3.K(kty.sort(), _default(vty))
+    for k, v in d.items():
+        kk = k.v if type(k).__name__ == "_SymKey" else k
+        kt = kty.unwrap(ctx, kk)
+        has = z3.Store(has, kt, True)
+        val = z3.Store(val, kt, vty.unwrap(ctx, v))
+    return SMap(has, val, kty, vty)
+
+
+def coerce_to_bstr(ctx, v, lo, hi):
+    """SV str -> BStr by case split on the length (caller has established lo <= len <= hi)."""
+    v = mk(v)
+    if isinstance(v, (BStr, str)):
+        return v
+    t = zstr(v)
+    n = lo
+    while n < hi:
+        if ctx.branch(z3.Length(t) == n, f"len=={n}"):
+            break
+        n += 1
+    ctx.assume(z3.Length(t) == n)
+    chars = []
+    for i in range(n):
+        c = ctx.fresh(f"code{i}", z3.IntSort())
+        ctx.assume(c == z3.StrToCode(z3.SubString(t, i, 1)))
+        chars.append(c)
+    return BStr(chars, origin=t)
 
 
 def unop(ctx, op: str, a):
